@@ -499,3 +499,40 @@ func (w *World) pxDispatchTag(fn *ssa.Function, t int, boundaries map[*ssa.Funct
 	sort.Slice(arms, func(i, j int) bool { return arms[i].Label < arms[j].Label })
 	return arms
 }
+
+// pxRetRangeOK: the values of integer result idx of fn over its nil-error
+// return paths, by path exploration (nil: not decided within a small budget).
+func (w *World) pxRetRangeOK(fn *ssa.Function, idx int) ISet {
+	ei := errIndex(fn.Signature)
+	if fn.Blocks == nil || ei < 0 || idx >= fn.Signature.Results().Len() {
+		return nil
+	}
+	var acc ISet
+	bad := false
+	var px *PX
+	px = w.newPX(pxHooks{
+		onReturn: func(fr *pxFrame, ret *ssa.Return, results []*Term, st *pxState) {
+			if !isNilConst(ret.Results[ei]) {
+				if w.nonNilErr(ret.Results[ei], nil, nil, 0) {
+					return
+				}
+				if s, has := st.env["("+results[ei].key+" != nil:error)"]; has && s.Equal(single(1)) {
+					return
+				}
+			}
+			// (a wrap-around inside the term is modelled by the evaluator: the set is still an over-approximation)
+			s, _ := px.evalTerm(results[idx], st)
+			if s == nil {
+				bad = true
+				return
+			}
+			acc = acc.Union(s)
+		},
+	})
+	px.maxPaths, px.maxSteps = 400, 40000
+	px.Run(fn, nil)
+	if bad || px.Truncated || acc.Empty() {
+		return nil
+	}
+	return acc
+}
